@@ -94,7 +94,7 @@ def main():
       "setup_cmd": "./setup.sh",
       "hooks": {
         "guard": "espada_verif",
-        "enable": "rustflags --cfg espada_verif in /verif/harness/.cargo/config.toml (applies to every crate of the harness build, including the path dependency /repo); the recorders that call the guarded accessors are behind the harness feature 'hook' and are built into harness/target-hook, so the main harness never depends on them",
+        "enable": "RUSTFLAGS='--cfg espada_verif --check-cfg cfg(espada_verif)' on the one cargo invocation that builds the hook recorder (harness feature 'hook', target directory harness/target-hook; see setup.sh and lib/p_flop.py:_odometer_binding). The main harness - every check and every verdict - is built WITHOUT the guard, against /repo exactly as a user builds it, so a change to internals that the guarded accessors read cannot stop the checks from building; if the hook build fails the implementation-level binding is skipped with a note",
         "baseline_off_cmd": "cd /repo && cargo test --workspace --no-fail-fast --offline",
         "source_commits": ["33b8beb"],
         "add_only": True,
